@@ -101,4 +101,25 @@ let cmd_rename req =
          | RenEdits (_, edits) -> Arr (List.map (fun e -> Arr [jspan e.ed_span; Str (join_path e.ed_text)]) edits))
       | _ -> Null) (to_list (field req "requests")))) ]
 
-let () = main_loop [ ("rename", cmd_rename); ("qts", cmd_qts); ("use_pairs", cmd_use_pairs); ("nav", cmd_nav) ]
+(* {"cmd":"classify_rename", graph, analysis, slices, "requests":[[file,line,col,"id under cursor"],..]}
+   -> per request: is the first definition found there in the class Known_import_alias; does prepare_rename offer *)
+let cmd_classify req =
+  let g = graph_of (field req "graph") in
+  let a = analysis_of (field req "analysis") in
+  let fuel = fuel_of req in
+  let slices = List.map (fun e -> match to_list e with [sp; t] -> (span_of sp, to_str t) | _ -> failwith "slice") (to_list (field req "slices")) in
+  let slice (s : span) : n list list =
+    match List.find_opt (fun (s', _) -> s' = s) slices with
+    | Some (_, t) -> if String.contains t ' ' then [ident_of_string t] else split_path t
+    | None -> [] in
+  Obj [ ("answers", Arr (List.map (fun q ->
+      match to_list q with
+      | [f; l; c; id] ->
+        let f = nat_of f and l = nat_of l and c = nat_of c in
+        let known = match find_ a f l c with
+          | (DtSymbol nx, d) :: _ -> Bool (known_import_alias fuel g slice nx d)
+          | _ -> Null in
+        Obj [ ("known_import_alias", known); ("prepare", Bool (prepare_rename a (ident_of_string (to_str id)) f l c)) ]
+      | _ -> Null) (to_list (field req "requests")))) ]
+
+let () = main_loop [ ("classify_rename", cmd_classify); ("rename", cmd_rename); ("qts", cmd_qts); ("use_pairs", cmd_use_pairs); ("nav", cmd_nav) ]
